@@ -159,6 +159,10 @@ def gen_lines(g):
     if g.p("_", 0.3):
         # validators often start with an 'Error: ' line; only the jar launcher's own 'Unable to access jarfile' text is passed through as is
         out.insert(0, ["p", g.pick(["Error: ", "Error: evaluating field ", ">> Error: "]) + "bad node ", "/data/" + g.pick(SEGS) + "/" + g.pick(SEGS), ""])
+    if any(ln[0] == "b" for ln in out):
+        for ln in out:
+            if ln[0] == "p":
+                ln[2] = ln[2].replace("prénom", "prenom").replace("Ünï", "Uni")
     return out
 
 
